@@ -553,7 +553,7 @@ def oracle_pass(case, obs, faults_fired, tag):
                 if mine:
                     out.append(("dependent of a non-Ok step made API calls",
                                 f"step {s.label} made {[(c['method'], c['name']) for c in mine]} although {bad} not Ok ({tag})"))
-            if so[s.label]["cls"] == "Ok":
+            if so.get(s.label, {}).get("cls") == "Ok":
                 out.append(("dependent of a non-Ok step is reported Ok", f"step {s.label} ({tag})"))
         r = w["result"]
         if r is None:
@@ -568,9 +568,9 @@ def oracle_pass(case, obs, faults_fired, tag):
                 continue
             lab = by_type.get(c["type"])
             if lab is not None:
-                if so[lab]["cls"] != "Ok":
+                if so.get(lab, {}).get("cls") != "Ok":
                     out.append(("condition claims Ready for a step that is not Ok",
-                                f"condition {c['type']} Ready but step {lab} is {so[lab]['cls']} ({tag})"))
+                                f"condition {c['type']} Ready but step {lab} is {so.get(lab, {}).get('cls')} ({tag})"))
             elif not overall_ok:
                 out.append(("condition claims Ready although the workflow is not Ok",
                             f"condition type={c['type']} reason=Ready, overall {canon_oc(r.result)['cls']} ({tag})"))
@@ -652,7 +652,7 @@ def terms_of_pass(obs, ctx=None):
             r = w["result"]
             so = step_outcomes(w)
             wobs = "{| wo_raised := false; wo_outcomes := %s; wo_conds := %s; wo_overall := %s |}" % (
-                clist([so[s.label] for s in steps], c_oc),
+                clist([so[s.label] for s in steps if s.label in so], c_oc),
                 clist([(c["type"], c["reason"]) for c in r.conditions], lambda p: cpair(cstr(p[0]), cstr(p[1]))),
                 c_oc(canon_oc(r.result)))
         terms.append(("steps", f"CSteps {c_wsteps(steps)} {clist(ends, c_tend)} {wobs}"))
@@ -891,7 +891,7 @@ def slim(case):
 def make_cases(ctx: Ctx):
     """workflow cases (with initial contents) for this tier"""
     out = []
-    nwf = 10 if ctx.quick() else 40
+    nwf = 10 if ctx.quick() else 24
     scripts = [["vf", "rf:patch", "rf:recreate", "fe", "vfdep", "rf:die"],
                ["vf", "sub", "rf:never", "rf:readonly", "switch", "vfdep"],
                ["vf", "rf:patch", "fesub", "rf:nocreate", "vfdep"]]
@@ -1016,7 +1016,7 @@ def rf_oracle(sc, fg, fm, o, r):
 
 
 def rf_fault_cases(ctx: Ctx, cases, terms):
-    n_sc = 30 if ctx.quick() else 500
+    n_sc = 30 if ctx.quick() else 150
     kinds = [None] + KINDS
     for _ in range(n_sc):
         sc = m.rand_scenario(ctx.rng)
